@@ -674,5 +674,6 @@ func main() {
 		lens = append(lens, 65535, 65536)
 	}
 	lengthSweep(r.Fork(), lens, sum)
+	edgeStream(r.Fork(), sum)
 	sum.Print()
 }
